@@ -3,7 +3,7 @@ from vlib.props import prop
 prop("C14",
      harness="c14_listmode",
      runs={
-         "quick": [dict(flavour="asan", cases=100), dict(flavour="rel", cases=500)],
+         "quick": [dict(flavour="asan", cases=1500), dict(flavour="rel", cases=30000)],
          "thorough": [dict(flavour="asan", cases=1000), dict(flavour="rel", cases=10000)],
      },
      min_nontrivial={"quick": 2, "thorough": 2},
